@@ -4,6 +4,7 @@ import (
 	"fmt"
 	"go/ast"
 	"go/token"
+	"regexp"
 	"sort"
 	"strings"
 )
@@ -219,7 +220,35 @@ func (t *itr) ret(s *ast.ReturnStmt) {
 				}
 				continue
 			}
-			vals = append(vals, t.exprAs(e, sig.goResults[i]))
+			v := t.exprAs(e, sig.goResults[i])
+			// a later operand that contains a call may rebind a local this value mentions: fix the value now
+			laterCall := false
+			for _, e2 := range s.Results[i+1:] {
+				ast.Inspect(e2, func(n ast.Node) bool {
+					if c, ok := n.(*ast.CallExpr); ok {
+						// only calls that can rebind a local: a method of a local struct value, or `&local` arguments
+						if se, ok := c.Fun.(*ast.SelectorExpr); ok {
+							if v := t.env.vars[identName(se.X)]; v != nil && v.kind == vVal && (v.cat == cED || v.cat == cDec || v.cat == cBig) {
+								laterCall = true
+							}
+						}
+						for _, a := range c.Args {
+							if u, ok := a.(*ast.UnaryExpr); ok && u.Op == token.AND && t.env.vars[identName(u.X)] != nil {
+								laterCall = true
+							}
+						}
+					}
+					return true
+				})
+			}
+			if laterCall {
+				if _, isConst := info.Types[e]; !(isConst && info.Types[e].Value != nil) {
+					tmp := t.fresh()
+					t.emit("let %s : %s := %s", tmp, leanOf(sig.goResults[i]), v)
+					v = tmp
+				}
+			}
+			vals = append(vals, v)
 		}
 	}
 	for _, i := range sig.outs {
@@ -316,6 +345,11 @@ func (t *itr) assignVar(id *ast.Ident, rhs ast.Expr) {
 			t.fail("assignment to the pointer parameter %s", name)
 			return
 		}
+		if r.kind == "cell" && t.env.vars[name] == nil {
+			// a second name for a destination cell (`z := d`)
+			t.define(name, cDecPtr, vCell, r.name)
+			return
+		}
 		t.define(name, cDecPtr, vSrc, t.asSrc(r, "pointer assignment"))
 	case cBigPtr:
 		if call, ok := rhs.(*ast.CallExpr); ok && identName(call.Fun) == "tableExp10" {
@@ -363,6 +397,20 @@ func (t *itr) assignVar(id *ast.Ident, rhs ast.Expr) {
 		}
 		t.define(name, cCtx, vPlainCtx, x)
 		t.env.vars[name].scratch = true // a local copy: its fields may be assigned
+	case cED:
+		x, xc := t.expr(rhs)
+		if xc != cED {
+			t.fail("ErrDecimal value %s", exprString(rhs))
+			return
+		}
+		t.define(name, cED, vVal, x)
+		// the ErrDecimal keeps the *Context it was made from: later assignments to that context's fields are seen by it
+		t.env.vars[name].ctxAlias = ""
+		if call, ok := rhs.(*ast.CallExpr); ok && identName(call.Fun) == "MakeErrDecimal" && len(call.Args) == 1 {
+			if cv := t.env.vars[identName(call.Args[0])]; cv != nil && cv.cat == cCtx {
+				t.env.vars[name].ctxAlias = identName(call.Args[0])
+			}
+		}
 	case cDec, cBig:
 		t.fail("assignment of a %s value to %s", leanOf(c), name)
 	case cUnknown:
@@ -415,6 +463,15 @@ func (t *itr) simple(s ast.Stmt) {
 	case *ast.AssignStmt:
 		t.assign(s)
 	case *ast.IncDecStmt:
+		if se, ok := s.X.(*ast.SelectorExpr); ok {
+			// x.F++ : read, then write
+			op := token.ADD
+			if s.Tok == token.DEC {
+				op = token.SUB
+			}
+			t.assign(&ast.AssignStmt{Lhs: []ast.Expr{se}, Tok: token.ASSIGN, Rhs: []ast.Expr{&ast.BinaryExpr{X: se, Op: op, Y: &ast.BasicLit{Kind: token.INT, Value: "1"}}}})
+			return
+		}
 		var name string
 		if st, ok := s.X.(*ast.StarExpr); ok {
 			name = identName(st.X)
@@ -437,6 +494,9 @@ func (t *itr) simple(s ast.Stmt) {
 			t.fail("expression statement")
 			return
 		}
+		if identName(call.Fun) == "verifTape" {
+			return // observation hook of the verification build: a no-op in the default build
+		}
 		t.call(call, true)
 	default:
 		t.fail("statement %T", s)
@@ -457,6 +517,10 @@ func (t *itr) assign(s *ast.AssignStmt) {
 			return
 		}
 		for i, l := range s.Lhs {
+			if se, ok := l.(*ast.SelectorExpr); ok && s.Tok == token.ASSIGN && rs[i] != droppedResult {
+				t.assignField(se, rs[i])
+				continue
+			}
 			id, ok := l.(*ast.Ident)
 			if !ok {
 				t.fail("tuple assignment target")
@@ -563,6 +627,15 @@ func (t *itr) assign(s *ast.AssignStmt) {
 		}
 		t.assignVar(l, rhs)
 	case *ast.SelectorExpr:
+		if c := t.catOf(l.X); c == cED || c == cEDPtr {
+			f, ok := edFields[l.Sel.Name]
+			if !ok {
+				t.fail("assignment to %s", exprString(l))
+				return
+			}
+			t.assignField(l, t.exprAs(rhs, f.cat))
+			return
+		}
 		if t.catOf(l.X) == cCtx {
 			// a field of a local copy of the context
 			name := identName(l.X)
@@ -575,6 +648,17 @@ func (t *itr) assign(s *ast.AssignStmt) {
 			val := t.exprAs(rhs, f.cat)
 			t.define(name, cCtx, vPlainCtx, fmt.Sprintf("{ %s with %s := %s }", name, f.lean, val))
 			t.env.vars[name].scratch = true
+			// ErrDecimals made from this context share it
+			var eds []string
+			for en, ev := range t.env.vars {
+				if ev.cat == cED && ev.ctxAlias == name {
+					eds = append(eds, en)
+				}
+			}
+			sort.Strings(eds)
+			for _, en := range eds {
+				t.define(en, cED, vVal, fmt.Sprintf("{ %s with c := %s }", en, name))
+			}
 			return
 		}
 		c, ok := fieldCat[l.Sel.Name]
@@ -594,6 +678,18 @@ func (t *itr) assign(s *ast.AssignStmt) {
 	default:
 		t.fail("assignment target %T", lhs)
 	}
+}
+
+// assignField: `e.F = v` for a field of a local ErrDecimal
+func (t *itr) assignField(l *ast.SelectorExpr, val string) {
+	name := identName(l.X)
+	v := t.env.vars[name]
+	f, ok := edFields[l.Sel.Name]
+	if v == nil || v.cat != cED || !ok {
+		t.fail("assignment to %s", exprString(l))
+		return
+	}
+	t.define(name, cED, vVal, fmt.Sprintf("{ %s with %s := %s }", name, f.lean, val))
 }
 
 // conjuncts flattens a && b && c
@@ -629,10 +725,18 @@ func (t *itr) ifStmt(s *ast.IfStmt, rest func()) {
 				// the initialiser's variables are scoped to the `if`; the Lean `let` stays visible afterwards, so
 				// the name must not hide anything the rest of the function could still refer to
 				if id := identName(l); id != "_" && t.env.vars[id] != nil {
-					t.fail("if-initialiser redeclares %s", id)
+					// allowed only over the variable of an earlier `if` of the same block, whose Go scope has ended
+					if v := t.env.vars[id]; !(v.ifInit && v.depth == t.depth) {
+						t.fail("if-initialiser redeclares %s", id)
+					}
 				}
 			}
 			t.assign(as)
+			for _, l := range as.Lhs {
+				if v := t.env.vars[identName(l)]; v != nil {
+					v.ifInit = true
+				}
+			}
 		} else {
 			t.fail("if-initialiser")
 		}
@@ -1143,7 +1247,7 @@ func assignedNames(n ast.Node) map[string]bool {
 				// a method may write its receiver
 				if tv, ok := info.Types[se.X]; ok {
 					switch classify(tv.Type) {
-					case cBig, cBigPtr, cDec:
+					case cBig, cBigPtr, cDec, cED, cEDPtr:
 						mark(se.X)
 					}
 				}
@@ -1162,9 +1266,16 @@ func assignedNames(n ast.Node) map[string]bool {
 // forStmt: `for cond { … }` / `for { … break … }` as a function recursive on fuel.  The enclosing function takes
 // `fuel : Nat`; running out of fuel yields `goPanic` (the tie theorems are stated for fuel above an explicit bound).
 func (t *itr) forStmt(s *ast.ForStmt, rest func()) {
-	if s.Init != nil || s.Post != nil {
-		t.fail("for statement with init / post")
-		return
+	if s.Init != nil {
+		// the initialiser runs once, before the loop; its variables stay visible (checked not to shadow anything)
+		init := s.Init
+		s = &ast.ForStmt{For: s.For, Cond: s.Cond, Post: s.Post, Body: s.Body}
+		t.simple(init)
+	}
+	if s.Post != nil {
+		// the post statement runs after every iteration that reaches the end of the body (no `continue` is allowed)
+		body := &ast.BlockStmt{List: append(append([]ast.Stmt{}, s.Body.List...), s.Post)}
+		s = &ast.ForStmt{For: s.For, Cond: s.Cond, Body: body}
 	}
 	if !t.sig.fuel {
 		t.fail("loop in a function without fuel")
@@ -1182,10 +1293,6 @@ func (t *itr) forStmt(s *ast.ForStmt, rest func()) {
 		return
 	}
 	outer := t.env
-	if len(outer.sign) > 0 {
-		t.fail("loop while the sign of a big integer is tracked")
-		return
-	}
 	// variables of the enclosing function used / assigned by the loop
 	used := map[string]bool{}
 	scan := func(n ast.Node) {
@@ -1214,11 +1321,33 @@ func (t *itr) forStmt(s *ast.ForStmt, rest func()) {
 			free = append(free, n)
 		case v.kind == vVal:
 			ms = append(ms, n)
+		case v.kind == vPlainCtx && v.scratch:
+			ms = append(ms, n) // a local copy of a context
 		case v.kind == vCell || (v.kind == vOptCell && v.unwrapped):
 			free = append(free, n) // written through: a heap effect, not an assignment of the variable
 		default:
 			t.fail("loop assigns %s", n)
 			return
+		}
+	}
+	// the sign flags of the big integers the loop uses travel with them
+	inMs := map[string]bool{}
+	for _, m := range ms {
+		inMs[m] = true
+	}
+	for pl, sg := range outer.sign {
+		if !strings.HasPrefix(pl, "local:") {
+			t.fail("loop while the sign of %s is tracked", pl)
+			return
+		}
+		owner := strings.TrimPrefix(pl, "local:")
+		if !used[owner] {
+			continue
+		}
+		if inMs[owner] {
+			ms = append(ms, sg)
+		} else {
+			free = append(free, sg)
 		}
 	}
 	sort.Strings(ms)
@@ -1259,6 +1388,7 @@ func (t *itr) forStmt(s *ast.ForStmt, rest func()) {
 	for _, m := range ms {
 		recCall += " " + m
 	}
+	t.inAux++
 	body, endEnv := t.capture(func() {
 		saveBreak, saveWrap := t.loopBreak, t.retWrap
 		t.loopBreak = func() { t.emit("%s", wrap(exitVal())) }
@@ -1282,8 +1412,11 @@ func (t *itr) forStmt(s *ast.ForStmt, rest func()) {
 		}
 		t.loopBreak, t.retWrap = saveBreak, saveWrap
 	})
-	if len(endEnv.sign) > 0 {
-		t.fail("the loop leaves the sign of a big integer tracked")
+	t.inAux--
+	for pl := range endEnv.sign {
+		if _, ok := outer.sign[pl]; !ok {
+			t.fail("the loop starts tracking the sign of %s", pl)
+		}
 	}
 	var sb strings.Builder
 	fmt.Fprintf(&sb, "/-- a `for` loop of `%s`, on fuel -/\n", t.fn)
@@ -1311,7 +1444,11 @@ func (t *itr) forStmt(s *ast.ForStmt, rest func()) {
 		}
 		return p
 	}
-	fmt.Fprintf(&sb, "%s => %s\n", pat("0"), wrap("goPanic"))
+	outOfFuel := "goPanic"
+	if hasRet {
+		outOfFuel = "Sum.inr goPanic"
+	}
+	fmt.Fprintf(&sb, "%s => %s\n", pat("0"), wrap(outOfFuel))
 	if t.monadic {
 		fmt.Fprintf(&sb, "%s => do\n", pat("fuel + 1"))
 	} else {
@@ -1355,5 +1492,54 @@ func (t *itr) forStmt(s *ast.ForStmt, rest func()) {
 		return
 	}
 	t.rebind(ms, r)
-	rest()
+	t.splitRest(rest)
+}
+
+var identRe = regexp.MustCompile(`[A-Za-z_][A-Za-z0-9_']*`)
+
+// splitRest: what follows a loop becomes an auxiliary definition over the variables it uses (group imptrans only:
+// the composite functions are long, and the tie theorems are proved part by part).  Only at the top level of the
+// function body, where "what follows" returns the function's result.
+func (t *itr) splitRest(rest func()) {
+	if !splitAfterLoops || t.loopBreak != nil || !t.monadic || t.inAux > 0 {
+		rest()
+		return
+	}
+	lines, _ := t.capture(rest)
+	text := strings.Join(lines, "\n")
+	toks := map[string]bool{}
+	for _, tk := range identRe.FindAllString(text, -1) {
+		toks[tk] = true
+	}
+	var free []string
+	for n, v := range t.env.vars {
+		if !toks[n] {
+			continue
+		}
+		if (v.kind == vSrc || v.kind == vBPtr) && !v.assigned {
+			continue
+		}
+		free = append(free, n)
+	}
+	sort.Strings(free)
+	t.nparts++
+	name := fmt.Sprintf("%s_k%d", t.fn, t.nparts)
+	ty := t.sig.resultLean()
+	if strings.Contains(ty, "×") {
+		ty = "(" + ty + ")"
+	}
+	var sb strings.Builder
+	fmt.Fprintf(&sb, "/-- `%s`, continued after a loop -/\n", t.fn)
+	fmt.Fprintf(&sb, "def %s", name)
+	call := name
+	for _, f := range free {
+		fmt.Fprintf(&sb, " (%s : %s)", f, leanTyVar(t.env.vars[f]))
+		call += " " + f
+	}
+	fmt.Fprintf(&sb, " : Prog %s := do\n", ty)
+	for _, l := range lines {
+		fmt.Fprintf(&sb, "  %s\n", l)
+	}
+	t.aux = append(t.aux, sb.String())
+	t.emit("%s", call)
 }
